@@ -33,8 +33,11 @@ def check(ctx):
     ctx.rule("C05-E", "separator is '│' iff draw_borders else ' '; the bottom rule is added only under draw_borders")
     ctx.rule("C05-F", "stacked rows: separators span self.width() with kind StraightVert, drawn only under draw_borders, "
              "closed by add_horizontal_border under draw_borders")
+    ctx.rule("C05-G", "every line of a column is brought to the column's width before anything uses it: text lines are padded "
+             "and border lines stretched to `width` in the per-column normalisation, so padding rows and collapsed borders "
+             "have the column's width")
     for rid, fn in (("C05-A", rule_a), ("C05-B", rule_b), ("C05-C", rule_c), ("C05-D", rule_d), ("C05-E", rule_e),
-                    ("C05-F", rule_f)):
+                    ("C05-F", rule_f), ("C05-G", rule_g)):
         ctx.guard(rid, fn)
 
 
@@ -332,3 +335,41 @@ def rule_f(ctx):
     nb = ahb.calls(lambda cd, t: ends(cd, "BorderHoriz::<T>::new"))
     okc = len(nb) == 1 and direct_field(ahb, nb[0][1]["args"][0]) == ("render::text_renderer::SubRenderer", "width")
     ctx.check(okc, "C05-F", "add_horizontal_border-spans-width", ahb.span, ahb.id, "")
+
+
+def rule_g(ctx):
+    F = ctx.facts
+    b = F.one(RTRAIT + "append_columns_with_borders")
+    norm_cl = None
+    for _bb, cb in transitive_closures(F, b):
+        if cb.calls(lambda cd, t: ends(cd, "TaggedLine::<T>::pad_to")):
+            norm_cl = cb
+    require(norm_cl is not None, "per-line normalisation closure (pad_to) in append_columns_with_borders")
+    cb = norm_cl
+    disp = find_dispatch(cb, "RenderLine<std::vec::Vec<<D as render::text_renderer::TextDecorator>::Annotation>>", 1)
+    rl = F.adt("RenderLine")
+    names = {v["discr"]: v["name"] for v in rl["variants"]}
+    t = cb.term(disp)
+    arms = {}
+    for v, tb in t["targets"]:
+        arms[names[v]] = tb
+    if t["otherwise"] is not None and cb.term(t["otherwise"])["k"] != "unreachable":
+        for nm in set(names.values()) - set(arms):
+            arms[nm] = t["otherwise"]
+    for nm, meth in (("Text", "pad_to"), ("Line", "stretch_to")):
+        tb = arms.get(nm)
+        okc = False
+        if tb is not None:
+            region = [x for x in cb.reachable() if cb.dominates(tb, x)]
+            for x in region:
+                tt = cb.term(x)
+                if tt["k"] == "call" and callee_method(tt) == meth:
+                    w = norm(cb.expr(tt["args"][1]))
+                    okc = w.endswith("width")
+        ctx.check(okc, "C05-G", "normalise:%s→%s(width)" % (nm, meth), cb.span, fn_key(cb),
+                  "a column's %s lines must be brought to the column width before the borders are collapsed and the padding "
+                  "rows are derived" % nm.lower())
+    # the normalisation happens before any use: it is inside the construction of line_sets (first closure), and
+    # column_padding is derived from the (stretched) last border line
+    pad = b.calls(lambda cd, t: ends(cd, "BorderHoriz::<T>::to_vertical_lines_above"))
+    ctx.check(len(pad) == 1, "C05-G", "padding-rows-from-bottom-border", b.span, b.id, "")
